@@ -1298,6 +1298,8 @@ func main() {
 			r = outAlloc(f[1:])
 		case "INITSEQ":
 			r = initSeq(f[1:])
+		case "PARAMSEQ":
+			r = paramSeq(f[1:])
 		default:
 			r = &result{Cmd: f[0], Fails: []string{"unknown command"}}
 		}
